@@ -18,6 +18,11 @@ def optUuid (j : Json) (k : String) : R (Option Uuid) :=
   | .ok (.str s) => do pure (some (← uuidOfDec s))
   | _ => pure none
 
+def optHex (j : Json) (k : String) : R (Option Bytes) :=
+  match j.getObjVal? k with
+  | .ok (.str s) => do pure (some (← hexOf s))
+  | _ => pure none
+
 def opOf (j : Json) : R Op := do
   let k ← getStr j "k"
   match k with
@@ -57,6 +62,50 @@ def handle (j : Json) : R Json := do
         else pure Json.null
       outs := outs.push (Json.mkObj [("resp", jresp r), ("state", jpstate s'), ("wrote", Json.bool wrote), ("doc", doc)])
       s := s'
+    pure (Json.mkObj [("steps", Json.arr outs)])
+  | "sessions" =>
+    -- histories with real sessions: connections are numbered, identity comes from `verify` ops
+    let tbl ← getObj j "parse"
+    let parse := parseOf tbl
+    let identJ ← getObj j "ident"
+    let mut s := PState.empty
+    let mut ss : Sessions := Sessions.fresh
+    let mut outs : Array Json := #[]
+    for oj in (← getArr j "ops") do
+      let k ← getStr oj "k"
+      let sop : SOp ← match k with
+        | "setup" => pure (SOp.setup (← getHex oj "id") (← getHex oj "key"))
+        | "verify" =>
+          let idb ← optHex oj "id"
+          let signer ← optHex oj "signer"
+          pure (SOp.verify (← getNat oj "c") { outerOk := ← getBool oj "outer_ok", idb, signer })
+        | "req" => pure (SOp.req (← getNat oj "c") (← getHex oj "body"))
+        | _ => throw s!"sessions: unknown op kind {k}"
+      let idb? : Option Bytes := match sop with
+        | .setup idb _ => some idb
+        | .verify _ v => if v.outerOk then v.idb else none
+        | .req _ body => (Hap.Tlv.decode body []).bind fun objs => aget objs tUser
+      if let some idb := idb? then
+        if (tbl.getObjVal? (toHex idb)).toOption.isNone then
+          throw s!"parse table has no entry for id {toHex idb}"
+      let (s', ss', ans) := sstep parse s ss sop
+      let c : Nat := match sop with
+        | .verify c _ => c
+        | .req c _ => c
+        | .setup _ _ => 0
+      let sess := Json.mkObj [("enc", Json.bool (ss' c).enc), ("cu", jopt juuid (ss' c).cu)]
+      let out ← match sop, ans with
+        | .verify _ v, _ =>
+          pure (Json.mkObj [("verified", Json.bool (verifies parse s v).isSome), ("sess", sess), ("state", jpstate s')])
+        | .setup _ _, some (r, wrote) =>
+          pure (Json.mkObj [("resp", jresp r), ("state", jpstate s'), ("wrote", Json.bool wrote)])
+        | _, some (r, wrote) =>
+          let doc ← if wrote then do pure (jdoc (persist (← identOf identJ s'))) else pure Json.null
+          pure (Json.mkObj [("resp", jresp r), ("state", jpstate s'), ("wrote", Json.bool wrote), ("doc", doc), ("sess", sess)])
+        | _, none => throw "sessions: no answer"
+      outs := outs.push out
+      s := s'
+      ss := ss'
     pure (Json.mkObj [("steps", Json.arr outs)])
   | _ => throw s!"pairstate: unknown op {op}"
 
